@@ -461,12 +461,135 @@ fn faulty_writer_case(rep: &mut Report, seed: u64, idx: u64) {
     }
 }
 
+/// Many channels transmitting long messages at once (all initialisation packets first, then the
+/// continuations round-robin or in a seeded order that keeps each channel's own order): every channel's
+/// message is delivered, on its last packet.
+fn many_channels_case(rep: &mut Report, seed: u64, idx: u64) {
+    let mut rng = Rng::derive(seed, "c16many", idx);
+    let (n, len) = *rng.pick(&[(9usize, 7608usize), (20, 3800), (12, 6000), (40, 2000), (64, 1100), (5, 7608), (30, 300)]);
+    let case = json!({"index": idx, "part": "many channels at once", "channels": n, "payload_len": len});
+    rep.eval();
+    rep.nontrivial(fnv(format!("many|{n}|{len}|{idx}").as_bytes()));
+    let mut streams: Vec<(u32, Vec<u8>, Vec<Vec<u8>>)> = Vec::new();
+    for c in 0..n {
+        let channel = 0x1000 + c as u32 * 7;
+        let payload = rng.bytes(len.saturating_sub(c % 3));
+        let Ok(m) = Message::new(channel, Command::Cbor, &payload) else {
+            rep.violate("sender refuses a payload within the protocol maximum", format!("length {}", payload.len()), case.clone());
+            return;
+        };
+        let mut cap = Capture::default();
+        if m.send(&mut cap).is_err() {
+            rep.violate("send fails on an infallible writer", String::new(), case.clone());
+            return;
+        }
+        streams.push((channel, payload, cap.writes));
+    }
+    // order: every initialisation packet, then continuations; round-robin or seeded
+    let mut order: Vec<(usize, usize)> = (0..n).map(|c| (c, 0)).collect();
+    let mut next: Vec<usize> = vec![1; n];
+    let round_robin = rng.bool();
+    loop {
+        let open: Vec<usize> = (0..n).filter(|c| next[*c] < streams[*c].2.len()).collect();
+        if open.is_empty() {
+            break;
+        }
+        if round_robin {
+            for c in open {
+                order.push((c, next[c]));
+                next[c] += 1;
+            }
+        } else {
+            let c = open[rng.below(open.len())];
+            order.push((c, next[c]));
+            next[c] += 1;
+        }
+    }
+    let r = catch(|| {
+        let mut h = ChannelHandler::default();
+        let mut got: Vec<(usize, usize, u32, Vec<u8>)> = Vec::new();
+        for (c, k) in &order {
+            if let Some(m) = h.handle_packet(&streams[*c].2[*k]) {
+                got.push((*c, *k, m.channel, m.payload.clone()));
+            }
+        }
+        got
+    });
+    match r {
+        Err((sig, d)) => rep.violate(&format!("receiver {sig}"), d, case),
+        Ok(got) => {
+            rep.count("many_channel_runs");
+            for (c, (channel, payload, packets)) in streams.iter().enumerate() {
+                let mine: Vec<_> = got.iter().filter(|g| g.2 == *channel).collect();
+                if mine.len() != 1 {
+                    rep.violate("with many channels transmitting at once, a channel's message was not delivered exactly once", format!("channel {c} of {n} ({} bytes each): {} deliveries", payload.len(), mine.len()), case.clone());
+                    return;
+                }
+                if mine[0].1 != packets.len() - 1 || &mine[0].3 != payload {
+                    rep.violate("with many channels transmitting at once, a message was delivered early or with another payload", format!("channel {c}: delivered at its packet {} of {}", mine[0].1, packets.len()), case.clone());
+                    return;
+                }
+            }
+        }
+    }
+}
+
+/// The transfer pauses (an injected delay between two packets of one message, while another channel may
+/// carry on): the statement does not know about time, the message is delivered all the same.
+fn paused_transfer_case(rep: &mut Report, seed: u64, idx: u64, pause_ms: u64) {
+    let mut rng = Rng::derive(seed, "c16pause", idx);
+    let len = *rng.pick(&[58usize, 200, 1000]);
+    let payload = rng.bytes(len);
+    let other = rng.bytes(150);
+    let case = json!({"index": idx, "part": "transfer pauses between two packets", "payload_len": len, "pause_ms": pause_ms});
+    rep.eval();
+    rep.nontrivial(fnv(format!("pause|{len}|{pause_ms}").as_bytes()));
+    let packets = |ch: u32, p: &[u8]| -> Vec<Vec<u8>> {
+        let mut cap = Capture::default();
+        Message::new(ch, Command::Cbor, p).ok().map(|m| m.send(&mut cap));
+        cap.writes
+    };
+    let a = packets(0x51, &payload);
+    let b = packets(0x52, &other);
+    let pause_at = 1 + rng.below(a.len() - 1);
+    let r = catch(|| {
+        let mut h = ChannelHandler::default();
+        let mut delivered: Vec<(u32, Vec<u8>)> = Vec::new();
+        let mut feed = |h: &mut ChannelHandler, p: &Vec<u8>, d: &mut Vec<(u32, Vec<u8>)>| {
+            if let Some(m) = h.handle_packet(p) {
+                d.push((m.channel, m.payload.clone()));
+            }
+        };
+        feed(&mut h, &b[0], &mut delivered);
+        for (i, p) in a.iter().enumerate() {
+            if i == pause_at {
+                std::thread::sleep(std::time::Duration::from_millis(pause_ms));
+                // the other channel carries on after the pause
+                for q in &b[1..] {
+                    feed(&mut h, q, &mut delivered);
+                }
+            }
+            feed(&mut h, p, &mut delivered);
+        }
+        delivered
+    });
+    match r {
+        Err((sig, d)) => rep.violate(&format!("receiver {sig}"), d, case),
+        Ok(d) => {
+            rep.count("paused_transfers");
+            if !d.contains(&(0x51, payload.clone())) || !d.contains(&(0x52, other.clone())) || d.len() != 2 {
+                rep.violate("a transfer that paused between two packets was not delivered (or the other channel's was not)", format!("{} deliveries after a pause of {pause_ms} ms before packet {pause_at}", d.len()), case);
+            }
+        }
+    }
+}
+
 pub fn run(args: &Args) -> Report {
     let mut rep = Report::new(
         "C16",
         &args.tier,
         args.seed,
-        "messages of every payload length (thorough: all of 0..7610 plus 65535/65536; quick: all boundary lengths and a seeded sample) x 9 commands x channels {0, 1, 0xFFFFFFFF, random} x contents {random, 0x00, 0xFF} sent through Message::send into a capturing writer and parsed by an own packet parser, then fed to ChannelHandler; 2-4 channels interleaved: all order-preserving merges when the streams total <= 10 packets, seeded merges otherwise, with stray continuation packets injected; distinct by (length, command, channel) resp. hash of the merge order; non-trivial when the message spans more than one packet or at least two channels are interleaved",
+        "messages of every payload length (thorough: all of 0..7610 plus 65535/65536; quick: all boundary lengths and a seeded sample) x 9 commands x channels {0, 1, 0xFFFFFFFF, random} x contents {random, 0x00, 0xFF} sent through Message::send into a capturing writer and parsed by an own packet parser, then fed to ChannelHandler; 2-4 channels interleaved: all order-preserving merges when the streams total <= 10 packets, seeded merges otherwise, with stray continuation packets injected; 5-64 channels transmitting messages of 300-7608 bytes at once; transfers that pause for 0.7-6 s between two packets; distinct by (length, command, channel) resp. hash of the merge order; non-trivial when the message spans more than one packet or at least two channels are interleaved",
     );
     rep.assumptions.push("the byte order of the 4 channel-id bytes is left open by the specification: only 'same in every packet and decoded to the same channel' is demanded".into());
     rep.assumptions.push("Message::new refuses exactly 7609 bytes (it counts one continuation packet too many when the remainder is a multiple of 59); the statement speaks of accepted messages and of lengths above 7609, so this is recorded, not judged".into());
@@ -541,6 +664,20 @@ pub fn run(args: &Args) -> Report {
             let idx = 20_000_000 + k;
             if only.map_or(true, |o| o == idx) {
                 reuse_case(&mut rep, args.seed, idx);
+            }
+        }
+        for k in 0..args.size(10, 60) as u64 {
+            let idx = 40_000_000 + k;
+            if only.map_or(true, |o| o == idx) {
+                many_channels_case(&mut rep, args.seed, idx);
+            }
+        }
+        // injected delays: 0.7 s and 1.2 s in the quick tier; up to 6 s in the thorough one
+        let pauses: &[u64] = if args.thorough() { &[700, 1200, 2500, 6000] } else { &[700, 1200] };
+        for (k, ms) in pauses.iter().enumerate() {
+            let idx = 50_000_000 + k as u64;
+            if only.map_or(true, |o| o == idx) {
+                paused_transfer_case(&mut rep, args.seed, idx, *ms);
             }
         }
     }
